@@ -290,3 +290,82 @@ def runLayerRuleOps (mt : Str → Str → Bool) (ops : List LayerRuleOp) (g : PG
   go {} 0 ops
 
 end Pta
+
+/-! ### `containing_modules(modules: str | list[str])` with both argument forms (property C16)
+
+  `LArchOp.containingModules ms` above carries the list `modules_list`; the `str` form of the argument used to be
+  turned into the one-element list by the harness. Here the argument itself is modelled (`ModArg`), together with the
+  line `modules_list = modules if isinstance(modules, list) else [modules]`, so that "string or list" is a statement
+  about the model. `LArch.stepCharset` is the code BEFORE fix 1df0d8a, whose duplicate test read `set(modules)`. -/
+namespace Pta
+
+/-- the argument of `containing_modules`: a `str` or a `list[str]` -/
+inductive ModArg
+  | str (s : Str)
+  | list (ms : List Str)
+deriving DecidableEq, Repr
+
+/-- `modules_list = modules if isinstance(modules, list) else [modules]` -/
+def ModArg.toList : ModArg → List Str
+  | .str s => [s]
+  | .list ms => ms
+
+/-- the elements of `set(modules)` for the RAW argument: iterating a `str` yields its characters, each a
+    one-character string; iterating a list yields its elements -/
+def ModArg.rawElems : ModArg → List Str
+  | .str s => s.map fun c => [c]
+  | .list ms => ms
+
+/-- a call on the LayeredArchitecture builder: one of the calls of `LArchOp` (whose `containingModules ms` is the
+    list form), or `containing_modules` with an explicit argument form -/
+inductive LArchCall
+  | op (o : LArchOp)
+  | containing (a : ModArg)
+deriving DecidableEq, Repr
+
+/-- `containing_modules` as it is (after fix 1df0d8a): the pending-layer check, then `modules_list`, then the duplicate
+    test on `set(modules_list)`, then the assignment of `_to_module_objects(modules_list)` -/
+def LArch.stepCall (a : LArch) : LArchCall → Except ErrKind LArch
+  | .op o => a.step o
+  | .containing arg =>
+    match a.pending with
+    | [p] =>
+      let modulesList := arg.toList
+      if modulesList.any (fun m => a.allIds.contains m) then .error .improperlyConfigured
+      else .ok (a.setModules p (modulesList.map .name))
+    | _ => .error .improperlyConfigured
+
+/-- `containing_modules` BEFORE fix 1df0d8a (defect F-C16): `module_set = set(modules)` — the duplicate test looks at
+    the elements of the raw argument, for a `str` its characters; the assignment uses `modules_list` as today.
+    Everything else as in `LArch.step`. -/
+def LArch.stepCharset (a : LArch) : LArchCall → Except ErrKind LArch
+  | .op o => a.step o
+  | .containing arg =>
+    match a.pending with
+    | [p] =>
+      let modulesList := arg.toList
+      if arg.rawElems.any (fun m => a.allIds.contains m) then .error .improperlyConfigured
+      else .ok (a.setModules p (modulesList.map .name))
+    | _ => .error .improperlyConfigured
+
+/-- the list-form call a call stands for -/
+def LArchCall.toOp : LArchCall → LArchOp
+  | .op o => o
+  | .containing a => .containingModules a.toList
+
+/-- run a history of calls with a given step function; on error the index of the raising call -/
+def runLArchCallsFrom (step : LArch → LArchCall → Except ErrKind LArch) (a : LArch) (i : Nat) :
+    List LArchCall → Except (ErrKind × Nat) LArch
+  | [] => .ok a
+  | c :: rest =>
+    match step a c with
+    | .error k => .error (k, i)
+    | .ok a' => runLArchCallsFrom step a' (i + 1) rest
+
+/-- a builder history with both argument forms, on the library as it is -/
+def runLArchCalls (cs : List LArchCall) : Except (ErrKind × Nat) LArch := runLArchCallsFrom LArch.stepCall [] 0 cs
+
+/-- the same history on the code before fix 1df0d8a -/
+def runLArchCharset (cs : List LArchCall) : Except (ErrKind × Nat) LArch := runLArchCallsFrom LArch.stepCharset [] 0 cs
+
+end Pta
